@@ -55,6 +55,15 @@ Theorem C15_copy tol orig tr pi cp tr' :
   Permutation cp orig /\ sorted_t cp = true /\ (tr = None <-> tr' = None).
 Proof. exact (copy_check_sound tol orig tr pi cp tr'). Qed.
 
+(* selections of covariance data keep, for the selected observations, their times, velocities and the covariance entries of
+   every selected PAIR (row and column follow the same selection) *)
+Theorem C15_slice_cov t rv cov sel st srv scov :
+  slice_check_cov t rv cov sel st srv scov = true ->
+  st = gather XNaN sel t /\ srv = gather XNaN sel rv /\ scov = gather2 sel cov /\
+  forall i j, (i < length sel)%nat -> (j < length sel)%nat ->
+    nth j (nth i scov []) XNaN = nth (nth j sel O) (nth (nth i sel O) cov []) XNaN.
+Proof. exact (slice_check_cov_sound t rv cov sel st srv scov). Qed.
+
 Theorem C15_slice orig sel pi out :
   slice_check orig sel pi out = true -> Permutation out (gather obs_d sel orig) /\ sorted_t out = true.
 Proof. exact (slice_check_sound orig sel pi out). Qed.
@@ -78,3 +87,4 @@ Print Assumptions C15_cov_entry.
 Print Assumptions C15_tref_default_earliest.
 Print Assumptions C15_copy.
 Print Assumptions C15_slice.
+Print Assumptions C15_slice_cov.
